@@ -271,6 +271,23 @@ claim(
     "DESIGN.md §2 C13",
 )
 
+claim(
+    "C07",
+    "position of the single write relative to package calls; index/guard analysis of every CST-list "
+    "mutation; inventory of AST attribute stores in DocTrans; ast.arguments field coverage of header "
+    "re-rendering",
+    "Decides necessary parts: doctrans() has one write, it is last, and nothing in the package runs once the "
+    "file is truncated (so a failing conversion leaves the file byte-identical); every mutation of the CST "
+    "list is at cst_idx (the def/class header located by find_cst_at_ast) or cst_idx+1, deletion/overwrite "
+    "there only when that node is an existing docstring and insertion only when it is not (with C09: every "
+    "other line is byte-identical); DocTrans assigns only annotations, type comments, returns, visited bodies "
+    "and an arity-preserving re-map of args.args; a function that re-renders the parameter list reads all "
+    "parameter-carrying fields of ast.arguments or delegates to to_code.",
+    "NOT decided: that the text spliced into a header/docstring denotes the intended annotation for every "
+    "program; comment preservation inside a re-rendered header (value level).",
+    "DESIGN.md §2 C07",
+)
+
 
 def main():
     """write MANIFEST.json"""
